@@ -358,6 +358,24 @@ def b_lookups(ctx):
             we_ = np.array([float(getattr(singles[k_], sfn)(w_[k_], fac * float(lm_.iloc[k_]))) for k_ in range(3)])
             if not np.allclose(ge_, we_, rtol=5e-4):
                 ctx.fail(f'C07:per-point-lookup:mixed-signs:{sfn}:{lname}', f'{sfn} of the per-point loads {(fac * lm_).tolist()} = {ge_.tolist()}, each point alone {we_.tolist()}', {'law': lname, 'bins': nb, 'max': mx})
+                continue
+            # the per-point look-ups pair the i-th load with the i-th point of the table; the labels of the load Series carry no meaning (the docstring of
+            # Binned.stress asks for a plain RangeIndex, the HCM detector passes Series labelled by load_step): a RangeIndex, one repeated load_step label and the
+            # node ids listed in another order give the same values position by position (added after seed C07-h multiplied a label-indexed sign with a
+            # node-indexed strain in the per-point branch of strain())
+            for iname, ix in (('RangeIndex', pd.RangeIndex(3)), ('load_step label', pd.Index([7, 7, 7], name='load_step')), ('node ids in another order', pd.Index([7, 3, 1], name='node_id'))):
+                lv_ = pd.Series((fac * lm_).to_numpy(), index=ix)
+                ctx.case(True, key=(lname, nb, mx, 'per-point-labels', fname, iname))
+                try:
+                    gs_ = getattr(bm, fname)(lv_)
+                    gv_ = np.asarray(gs_, dtype=float).ravel()
+                    gev_ = np.asarray(getattr(bm, sfn)(gs_, lv_), dtype=float).ravel()
+                except Exception as e:   # noqa
+                    ctx.fail(f'C07:per-point-labels:raises:{fname}:{lname}', f'{fname} / {sfn} of per-point loads labelled by {iname} raises {type(e).__name__}: {str(e)[:150]}', {'law': lname, 'bins': nb, 'max': mx, 'labels': iname})
+                    continue
+                if gv_.shape != g_.shape or not np.array_equal(gv_, g_) or gev_.shape != ge_.shape or not np.array_equal(gev_, ge_):
+                    ctx.fail(f'C07:per-point-labels:{sfn if np.array_equal(gv_, g_) else fname}:{lname}', f'{fname} / {sfn} of the per-point loads {lv_.tolist()} labelled by {iname}: {gv_.tolist()} / {gev_.tolist()}, labelled by the node ids {g_.tolist()} / {ge_.tolist()}',
+                             {'law': lname, 'bins': nb, 'max': mx, 'labels': iname})
     # a single bin
     if ctx.shard == 0:
         for lname, law in laws:
